@@ -62,7 +62,24 @@ func typeName(t types.Type) string {
 	return types.TypeString(t, func(p *types.Package) string { return p.Name() })
 }
 
+// typeKey is a canonical string for a type (byte == uint8, rune == int32).
 func typeKey(t types.Type) string {
+	t = types.Unalias(t)
+	switch u := t.(type) {
+	case *types.Basic:
+		if int(u.Kind()) < len(types.Typ) && types.Typ[u.Kind()] != nil {
+			return types.Typ[u.Kind()].Name()
+		}
+		return u.Name()
+	case *types.Pointer:
+		return "*" + typeKey(u.Elem())
+	case *types.Slice:
+		return "[]" + typeKey(u.Elem())
+	case *types.Array:
+		return fmt.Sprintf("[%d]%s", u.Len(), typeKey(u.Elem()))
+	case *types.Map:
+		return "map[" + typeKey(u.Key()) + "]" + typeKey(u.Elem())
+	}
 	return types.TypeString(t, func(p *types.Package) string { return p.Path() })
 }
 
